@@ -8,7 +8,11 @@
      evaluated on the IMPLEMENTATION's decisions: a failure is a `viol`, otherwise `diff`.
    fiber cases    `F <policy> <idem> <cl0> <plan length> <outcome>... | <event>... => <result>`
      the real execution loop, driven through the verif hook with fake targets, must go through
-     exactly the events of [fiber] and return its result. *)
+     exactly the events of [fiber] and return its result.
+   end-to-end cases `E6 <seed> <tier> | env:<n> <record>...`
+     a real Session against the mock cluster; per logical request (page) the frames the mock saw
+     must be accepted by [e2e_check] on a certificate the driver proposes (C06_e2e_run,
+     C06_e2e_gate, C06_e2e_fibers); otherwise [prop_frames] decides viol / diff. *)
 
 let cl_of = function
   | "Any" -> CAny | "One" -> COne | "Two" -> CTwo | "Three" -> CThree | "Quorum" -> CQuorum
@@ -164,8 +168,187 @@ let fiber_case p idem cl0 nplan outs impl =
     | Some false -> "viol trace-violates-property model=" ^ String.concat "," (List.map event_str tr @ [result_str r])
     | _ -> "diff model=" ^ String.concat "," (List.map event_str tr @ [result_str r])
 
+(* ==== end-to-end records (E6 / E13 cases): shared between ocaml/c06/driver.ml and
+   ocaml/c13/driver.ml -- the two copies of this block are identical, keep them in sync ====
+   One token per (logical request, page), see harness/src/e2e_attempts.rs for the format.
+   The driver PROPOSES certificates (how the frames split into fibers, which plan / outcome
+   stream each fiber had, for C13 a schedule of `execute`); the extracted checkers decide. *)
+type e2e_rec = { api : string; idem : bool; pol : policy; spec : (int * int) option; cl0 : consistency;
+                 nn : int; down : n list; pg : int; t0 : n; tr : n; mg : n; res : string; co : n option;
+                 frs : frame list }
+
+let strip1 s = String.sub s 1 (String.length s - 1)
+
+let frame_of_string (s : string) : frame =
+  match String.split_on_char '/' s with
+  | [node; cl; a; b; ans] ->
+    let f_ans =
+      if ans = "ok" then AnsOk else if ans = "drop" then AnsErr EBrokenConnectionError
+      else if ans = "-" then AnsNone
+      else if String.length ans > 1 && ans.[0] = 'X' then AnsErr (err_of (strip1 ans))
+      else failwith ("bad answer " ^ ans) in
+    { f_node = n_of_hex node; f_cl = cl_of cl; f_arr = n_of_hex a; f_ans;
+      f_done = (if b = "-" then N0 else n_of_hex b) }
+  | _ -> failwith ("bad frame " ^ s)
+
+let parse_record (tok : string) : e2e_rec =
+  match String.split_on_char ';' tok with
+  | "R" :: kvs ->
+    let tbl = List.map (fun kv -> let i = String.index kv '=' in
+                         (String.sub kv 0 i, String.sub kv (i + 1) (String.length kv - i - 1))) kvs in
+    let g k = try List.assoc k tbl with Not_found -> failwith ("missing field " ^ k) in
+    let hex k = int_of_string ("0x" ^ g k) in
+    { api = g "api"; idem = (g "idem" = "1"); pol = policy_of (g "pol");
+      spec = (if g "spec" = "-" then None else
+                match String.split_on_char ':' (g "spec") with
+                | [m; iv] -> Some (int_of_string ("0x" ^ m), int_of_string ("0x" ^ iv))
+                | _ -> failwith "bad spec");
+      cl0 = cl_of (g "cl"); nn = hex "n"; down = nlist_of_string (g "down"); pg = hex "pg";
+      t0 = n_of_hex (g "t0"); tr = n_of_hex (g "tr"); mg = n_of_hex (g "mg"); res = g "res";
+      co = (match List.assoc_opt "co" tbl with Some "-" | None -> None | Some c -> Some (n_of_hex c));
+      frs = (if g "fr" = "-" then [] else List.map frame_of_string (String.split_on_char ',' (g "fr"))) }
+  | _ -> failwith ("bad record " ^ tok)
+
+(* what the caller got.  Successful answers of the mock are Rows for QUERY / EXECUTE and Void for
+   BATCH, so a void result of a query is the synthetic empty result of IgnoreWriteError; a pager that
+   ends without delivering a page it asked for ("end") likewise *)
+let ores_of (r : e2e_rec) : ores option =
+  match r.res with
+  | "rows" -> Some OCompleted
+  | "void" -> Some (if r.api = "b" then OOk else OIgnored)
+  | "end" -> Some OIgnored
+  | "pool" -> Some (OFailed LConn)
+  | "emptyplan" -> Some OEmptyPlan
+  | s when String.length s > 1 && s.[0] = 'X' -> Some (OFailed (LAttempt (err_of (strip1 s))))
+  | _ -> None
+
+let outcome_of_frame f = match f.f_ans with AnsOk | AnsNone -> OSuccess | AnsErr e -> OError e
+let nodes_of (r : e2e_rec) : n list = List.init r.nn n_of_int
+let gate (r : e2e_rec) : int option = if r.idem then Option.map fst r.spec else None
+
+let rec subsets = function [] -> [[]] | x :: l -> let s = subsets l in s @ List.map (fun y -> x :: y) s
+
+(* (plan, outcome stream) candidates of ONE fiber with frames [frs]: the plan is the sequence of its
+   nodes; where the mock has cut connections ([down]) a target may have been skipped without an
+   attempt: the current target again (its pool lost the connection) or cut nodes that got no frame *)
+let rec gen (down : n list) (cur : n option) (dn : n list) (frs : frame list) : (n list * outcome list) list =
+  let sames = match cur with Some c when List.mem c down -> [false; true] | _ -> [false] in
+  List.concat_map (fun same ->
+      List.concat_map (fun skip ->
+          let dn' = List.filter (fun d -> not (List.mem d skip)) dn in
+          let pre_outs = (if same then [OConnFail] else []) @ List.map (fun _ -> OConnFail) skip in
+          match frs with
+          | [] -> [ (skip, pre_outs) ]
+          | f :: rest ->
+            let addp = if Some f.f_node = cur && (not same) && skip = [] then [] else [f.f_node] in
+            List.map (fun (p, o) -> (skip @ addp @ p, pre_outs @ (outcome_of_frame f :: o)))
+              (gen down (Some f.f_node) dn' rest))
+        (subsets dn))
+    sames
+
+let take k l = List.filteri (fun i _ -> i < k) l
+
+let fiber_cands (r : e2e_rec) (frs : frame list) : cert list =
+  let dn = List.filter (fun d -> not (List.exists (fun f -> f.f_node = d) r.frs)) r.down in
+  (* a fiber whose last frame was not answered was cancelled while that frame was in flight; one
+     whose last answer was logged may still have been cancelled before it processed the answer *)
+  let frees = match List.rev frs with f :: _ -> if f.f_ans = AnsNone then [true] else [false; true] | [] -> [false] in
+  take 64 (List.concat_map (fun free -> List.map (fun (p, o) -> { c_plan = p; c_outs = o; c_free = free })
+                                          (gen r.down None dn frs)) frees)
+
+(* gate closed: one fiber; the rest of the plan = the nodes that got no frame and are not cut *)
+let single_certs (r : e2e_rec) : cert list =
+  let nodes = nodes_of r in
+  List.map (fun c ->
+      let rest = List.filter (fun x -> not (List.mem x c.c_plan) && not (List.mem x r.down)) nodes in
+      { c with c_plan = c.c_plan @ rest; c_free = false })
+    (fiber_cands r r.frs)
+
+(* gate open: all ways to split the frames (in arrival order) into at most [maxf] fibers numbered in
+   the order of their first frame, such that a node belongs to one fiber and a fiber sends a frame
+   only after its previous one was answered *)
+let partitions (maxf : int) (frs : frame list) : int list list =
+  let res = ref [] in
+  let count = ref 0 in
+  (* fibers: (id, last frame, nodes) *)
+  let rec go fibers nf acc = function
+    | [] -> if !count < 400 then (incr count; res := List.rev acc :: !res)
+    | f :: rest ->
+      let can_follow (_, last, _) = last.f_ans <> AnsNone && compare_n last.f_done f.f_arr <= 0 in
+      let owner = List.filter (fun (_, _, ns) -> List.mem f.f_node ns) fibers in
+      let opts = match owner with
+        | [o] -> if can_follow o then [o] else []
+        | _ :: _ -> []
+        | [] -> List.filter can_follow fibers in
+      List.iter (fun (id, _, ns) ->
+          let fibers' = List.map (fun ((i, _, _) as x) -> if i = id then (id, f, if List.mem f.f_node ns then ns else f.f_node :: ns) else x) fibers in
+          go fibers' nf (id :: acc) rest) opts;
+      if owner = [] && nf < maxf then go (fibers @ [(nf, f, [f.f_node])]) (nf + 1) (nf :: acc) rest
+  and compare_n a b = compare (int_of_n a) (int_of_n b) in
+  go [] 0 [] frs;
+  List.rev !res
+
+let rec product (ls : 'a list list) : 'a list list =
+  match ls with
+  | [] -> [[]]
+  | l :: rest -> let p = product rest in List.concat_map (fun x -> List.map (fun y -> x :: y) p) l
+
+(* (fiber certificates, assignment) candidates for the gate-open case *)
+let multi_certs (r : e2e_rec) (max : int) : (cert list * nat list) list =
+  List.concat_map (fun assign ->
+      let nf = 1 + List.fold_left Stdlib.max (-1) assign in
+      let nf = Stdlib.max nf 1 in
+      let per = List.init nf (fun i ->
+          fiber_cands r (List.filteri (fun k _ -> List.nth assign k = i) r.frs)) in
+      let base = take 200 (product per) in
+      (* a fiber the mock never saw: every target it was handed had lost its connection *)
+      let dn = List.filter (fun d -> not (List.exists (fun f -> f.f_node = d) r.frs)) r.down in
+      let hidden = if dn = [] || nf > max then [] else
+          List.concat_map (fun cs ->
+              List.filter_map (fun sub -> if sub = [] then None else
+                                  Some (cs @ [{ c_plan = sub; c_outs = List.map (fun _ -> OConnFail) sub; c_free = false }]))
+                (subsets dn)) base in
+      List.map (fun cs -> (cs, List.map nat_of_int assign)) (base @ hidden))
+    (partitions (1 + max) r.frs)
+
+let rec_summary (r : e2e_rec) =
+  Printf.sprintf "api=%s;idem=%b;spec=%s;pg=%d;res=%s;frames=%d" r.api r.idem
+    (match r.spec with None -> "-" | Some (m, _) -> string_of_int m) r.pg r.res (List.length r.frs)
+
+(* ---- E6: the C06 judgement of one record ---- *)
+let e2e6_record (tok : string) : string =
+  let r = parse_record tok in
+  match ores_of r with
+  | None -> "diff e2e unexpected-result " ^ rec_summary r
+  | Some o ->
+    let nodes = nodes_of r in
+    let spec = Option.map (fun (m, _) -> nat_of_int m) r.spec in
+    let ok = match gate r with
+      | None ->
+        List.exists (fun c -> e2e_check r.pol r.idem spec r.cl0 nodes r.down [c] [] r.frs r.tr o r.co) (single_certs r)
+      | Some max ->
+        List.exists (fun (cs, assign) -> e2e_check r.pol r.idem spec r.cl0 nodes r.down cs assign r.frs r.tr o r.co)
+          (multi_certs r max) in
+    if ok then "ok"                       (* C06_e2e_run / C06_e2e_gate / C06_e2e_fibers *)
+    else if not (prop_frames r.pol r.idem spec (nat_of_int r.nn) r.frs)
+    then "viol e2e frames-violate-property " ^ rec_summary r
+    else "diff e2e no-certificate " ^ rec_summary r
+
+let e2e_line (judge : string -> string) (impl : string list) : string =
+  match impl with
+  | "skip-env" :: _ -> "ok skip-env"
+  | env :: recs when String.length env > 4 && String.sub env 0 4 = "env:" ->
+    if recs = [] then "diff e2e no-records" else
+    let vs = List.map (fun t -> try judge t with e -> "error e2e " ^ Printexc.to_string e) recs in
+    let is p v = String.length v >= String.length p && String.sub v 0 (String.length p) = p in
+    (match List.find_opt (is "viol") vs with
+     | Some v -> v
+     | None -> (match List.find_opt (fun v -> not (is "ok" v)) vs with Some v -> v | None -> "ok"))
+  | _ -> "error e2e " ^ String.concat "_" impl
+
 let verdict case impl =
   match case with
+  | "E6" :: _ -> e2e_line e2e6_record impl
   | ("X1" | "X2" | "X3" | "R") :: p :: steps -> history p steps impl
   | "F" :: p :: idem :: cl0 :: nplan :: outs -> fiber_case p idem cl0 nplan outs impl
   | _ -> "error unknown-case"
